@@ -89,6 +89,15 @@ void env_dump_trace(FILE *o) {
                 trace[i].err, trace[i].dev ? trace[i].dev : '-');
 }
 
+void env_print_trace(FILE *o) {
+    static const char rn[] = "-iotsgx";
+    fprintf(o, " trace=");
+    for(int i = 0; i < ntrace; i++)
+        fprintf(o, "%s%d:%c:%c:%ld:%ld:%c", i ? "," : "", trace[i].k, trace[i].op, rn[trace[i].role], trace[i].req, trace[i].res,
+                trace[i].dev ? trace[i].dev : '-');
+    if(!ntrace) fputc('-', o);
+}
+
 static const deviation *dev_for(int k) {
     for(int i = 0; i < nplan; i++)
         if(plan[i].k == k) return &plan[i];
